@@ -98,6 +98,13 @@ def k1(shape):
                 eng.prove(r3['index'] == p and r3['target'] == exp_target and nodes is not None and
                           chain.ref_fold(b.txs[p].hash, nodes, p) == root,
                           'K1: TSC proof does not verify', {'signature': 'K1-tsc', 'target': target})
+            # the position just past the block is still refused after proofs have been served from the cache
+            try:
+                _run(s.transaction_id_from_pos(h, len(b.txs), False))
+                eng.prove(False, 'K1: a position past the end of the block is answered after proofs were served',
+                          {'signature': 'K1-past-end'})
+            except smod.RPCError:
+                pass
             # a proof for a transaction that is not in that block is refused
             other = blocks[(h + 1) % len(blocks)].txs[0]
             if all(t.hash != other.hash for t in b.txs):
